@@ -46,7 +46,7 @@ ASSUMPTIONS = [
 ]
 
 NAMES = ["a", "b c", "données", "shards_list.json", "train", "test", "x.fb",
-         "decoy", "ds", "..."]
+         "decoy", "ds", "...", "..\\..", "a\\..\\..\\b", "\\", "c:\\x"]
 
 
 def st_component():
@@ -60,7 +60,8 @@ def st_path(draw):
     kind = draw(
         st.sampled_from([
             "grammar", "grammar", "decoy-abs", "decoy-rel", "decoy-rel-noisy",
-            "abs-inside", "root-relative-up"
+            "abs-inside", "root-relative-up", "decoy-rel-backslash",
+            "decoy-abs-backslash", "decoy-rel-mixed-sep"
         ]))
     if kind == "grammar":
         comps = draw(st.lists(st_component(), min_size=1, max_size=8))
@@ -114,8 +115,15 @@ def concrete_path(spec, base_dir: str, root: str, decoy: str, tail: str,
     if kind == "root-relative-up":
         return "../" * spec["ups"] + os.path.basename(root) + "/" + \
             base_dir + "/" + tail
+    if kind == "decoy-abs-backslash":
+        return os.path.join(decoy, tail).replace("/", "\\")
     ups = "../" * max(spec["ups"], 1)
     p = ups + "decoy/" + tail
+    if kind == "decoy-rel-backslash":
+        # alternate separator spelling (a single harmless component on POSIX)
+        return (base_dir + "/" + p).replace("/", "\\")
+    if kind == "decoy-rel-mixed-sep":
+        return base_dir + "/" + p.replace("../", "..\\")
     if kind == "decoy-rel-noisy":
         for i, n in enumerate(spec["noise"]):
             p = n + p if i % 2 == 0 else p.replace("decoy/", "decoy/" + n, 1)
